@@ -217,16 +217,21 @@ func (c *aliasCaller) keep(origin string, op int, s []string) int {
 
 // checkKept: clause (b).
 func (c *aliasCaller) checkKept(when string, now int) error {
-	for _, k := range c.kept {
+	var bad *keptSlice // visits run in map order: name the first discrepancy in (op, path) order
+	for i := range c.kept {
+		k := &c.kept[i]
 		if k.op < now {
 			c.st.keptAcross = true
 		}
-		if key(k.s) != k.want {
-			return fmt.Errorf("%s: the path slice from %s read %q when the caller got it and reads %q now: it is not a value of its own", when, k.origin, unkey(k.want), k.s)
+		if key(k.s) != k.want && (bad == nil || k.op < bad.op || k.op == bad.op && k.want < bad.want) {
+			bad = k
 		}
 	}
 	if len(c.kept) > c.st.kept {
 		c.st.kept = len(c.kept)
+	}
+	if bad != nil {
+		return fmt.Errorf("%s: the path slice from %s read %q when the caller got it and reads %q now: it is not a value of its own", when, bad.origin, unkey(bad.want), bad.s)
 	}
 	return nil
 }
@@ -289,7 +294,7 @@ func runAlias(sc *aliasScenario) (st aliasStats, err error) {
 					st.deepQuery = true
 				}
 				if keepAll || calls == expect {
-					idx := c.keep(fmt.Sprintf("%s visitor invocation %d", what, calls), i, p)
+					idx := c.keep(fmt.Sprintf("%s visitor invocation for %q", what, p), i, p)
 					if op.Ret == 3 {
 						// the visitor owns the slice it is handed: rewriting it in place must not disturb the rest of the visit
 						rewrite(p, 1+i%2, "rewritten-in-visit")
